@@ -175,6 +175,24 @@ static void kernel(const std::vector<std::string>& t)
     RSTemperature tt; tt.tt[0] = (uint8_t)L(2); tt.tt[1] = (uint8_t)L(3);
     fprintf(OUT, "k %s %d\n", k.c_str(), (int)(k == "temple" ? parseTempInLe(&tt) : parseTempInBe(&tt)));
   }
+  else if (k == "trig")
+  {
+    // Trigon::sin / cos of an arbitrary int32 angle, in a child of its own: an index outside the tables may fault
+    fflush(OUT);
+    pid_t pid = fork();
+    if (pid == 0)
+    {
+      static Trigon tg;
+      float sv = tg.sin((int32_t)L(2)), cv = tg.cos((int32_t)L(2));
+      uint32_t sb, cb; memcpy(&sb, &sv, 4); memcpy(&cb, &cv, 4);
+      fprintf(OUT, "k trig %u %u\n", sb, cb);
+      fflush(OUT);
+      _exit(0);
+    }
+    int st = 0; waitpid(pid, &st, 0);
+    fseek(OUT, 0, SEEK_END);
+    if (!(WIFEXITED(st) && WEXITSTATUS(st) == 0)) fprintf(OUT, "k trig crash %d\n", WIFSIGNALED(st) ? WTERMSIG(st) : WEXITSTATUS(st));
+  }
   else if (k == "anglecheck") fprintf(OUT, "k anglecheck %d\n", (int)ChanAngles::angleCheck((int32_t)L(2)));
   else if (k == "parse_utc")
   {
